@@ -46,8 +46,6 @@ excluded(const std::string& sig)
     }
 }
 const char* const SIG_F1 = "C20:F1:fan_round_trip:bins_outside_symmetric_fan";
-const char* const SIG_F2 = "C20:F2:KL:in_ring_pairs_counted_twice";
-const char* const SIG_F3 = "C20:F3:block_factors:same_block_pair_in_fan";
 
 // tolerances (relative to the reference value of the entry unless said otherwise); see props.d/C20.py for the calibration
 const double TOL_APPLY = 1e-6;   // one float product + one float multiply
@@ -367,12 +365,12 @@ check(const json& c)
 
   // ---- (2b) block factors ----------------------------------------------------------------------------------------
   // BlockData3D as allocate()/ML_estimate build it: FanProjData(nb_ax, nb_tr, nb_ax-1, nb_tr-1): needs an even number of
-  // transaxial blocks (constructor assert) and contains every block pair EXCEPT a block with itself; apply_block_norm and
-  // make_block_data index it with the blocks of every pair of the fan without a range test, so the fan must not contain two
-  // detectors of one block: half fan <= n/2 - crystals per block  (observation O2 in work/notes/C20_findings.md).
-  if (!no_exclude && B.nb_tr >= 2 && B.nb_tr % 2 == 0 && F.new_half_fan > nph / 2 - B.p_tr)
-    excluded(SIG_F3);
-  const bool block_ok = B.nb_tr >= 2 && B.nb_tr % 2 == 0 && (no_exclude || F.new_half_fan <= nph / 2 - B.p_tr);
+  // transaxial blocks (constructor assert) and contains every block pair EXCEPT two blocks at the same transaxial position:
+  // a detector pair inside one transaxial block position has no block factor, i.e. the factor 1 (fixed defect F3: the pair was
+  // looked up outside the container).
+  const bool block_ok = B.nb_tr >= 2 && B.nb_tr % 2 == 0;
+  if (block_ok && F.new_half_fan > nph / 2 - B.p_tr)
+    stats().cls("block factors: fan contains two detectors of one block");
   BlockData3D bd;
   std::vector<double> bfac;
   if (block_ok)
@@ -389,14 +387,16 @@ check(const json& c)
       for (std::size_t i = 0; i < X.dom.size(); ++i)
         {
           const Entry& e = X.dom[i];
-          bfac[i] = double(float(c20::hreal(seed_par ^ 0xb10cULL, c20::pair_key(e.ra / B.p_ax, e.a / B.p_tr, e.rb / B.p_ax, e.b / B.p_tr, B.nb_tr), 0.5, 2.)));
+          bfac[i] = e.a / B.p_tr == e.b / B.p_tr
+                        ? 1.
+                        : double(float(c20::hreal(seed_par ^ 0xb10cULL, c20::pair_key(e.ra / B.p_ax, e.a / B.p_tr, e.rb / B.p_ax, e.b / B.p_tr, B.nb_tr), 0.5, 2.)));
         }
       Result r = check_apply("apply_block_norm", X, fan0, base, bfac, [&](FanProjData& f, bool ap) { apply_block_norm(f, bd, ap); });
       if (r.kind != Result::PASS)
         return r;
     }
   else
-    stats().cls("block factors not applicable (odd/one block, or fan contains same-block pairs)");
+    stats().cls("block factors not applicable (odd number of blocks or one block)");
 
   // ---- (2c) geometric factors ----------------------------------------------------------------------------------------
   // symmetry unit: an even divisor of the physical detectors per ring (GeoData3D stores half a unit: allocate() passes unit/2)
@@ -562,7 +562,7 @@ check(const json& c)
       std::vector<char> has(std::size_t(B.nb_ax) * B.nb_tr * B.nb_ax * B.nb_tr, 0);
       auto bidx = [&](int RA, int A, int RB, int Bq) { return ((std::size_t(RA) * B.nb_tr + A) * B.nb_ax + RB) * B.nb_tr + Bq; };
       for (const Entry& e : X.dom)
-        if (e.ra <= e.rb)
+        if (e.ra <= e.rb && e.a / B.p_tr != e.b / B.p_tr)
           has[bidx(e.ra / B.p_ax, e.a / B.p_tr, e.rb / B.p_ax, e.b / B.p_tr)] = 1;
       long n = 0;
       for (int RA = norm.get_min_ra(); RA <= norm.get_max_ra(); ++RA)
@@ -654,24 +654,18 @@ check(const json& c)
             mag += data[i] + msnap[i];
           }
         const double stir_kl = KL(dfan, mf, thr);
-        // KL(FanProjData) loops rb >= ra "to avoid double counting" but for rb == ra both (a,b) and (b,a) are visited:
-        // LORs inside one ring are counted twice, LORs between rings once (finding F2).  Accepted unless the exclusion is off.
-        const double stir_weighting = x + 2 * s, once = x + s;
+        // every LOR counts equally: once (or twice, as the 2D DetPairData version does); fixed defect F2 counted the LORs inside
+        // one ring twice and the LORs between rings once
+        const double once = x + s;
         // the terms a log(a/b) + b - a cancel to ~1e-16 of (a+b) each: absolute slack relative to the summed magnitudes
         const double slack = 1e-12 * mag;
         auto close = [&](double ref) { return std::fabs(stir_kl - ref) <= TOL_KL * ref + slack; };
-        if (stir_weighting > 1e-6 * mag)
-          smax("max rel dev stir::KL vs its own weighting", std::fabs(stir_kl - stir_weighting) / stir_weighting);
+        if (once > 1e-6 * mag)
+          smax("max rel dev stir::KL vs once-per-LOR KL", std::min(std::fabs(stir_kl - once), std::fabs(stir_kl - 2 * once)) / once);
         if (x > 1e-6 * mag && s > 1e-6 * mag)
-          smax("rel dev stir::KL vs once-per-LOR KL (finding F2)", std::fabs(stir_kl - once) / once);
-        if (!no_exclude && x > 1e-6 * mag && s > 1e-6 * mag)
-          excluded(SIG_F2); // STIR's weighting accepted although it is not proportional to the once-per-LOR KL
-        if (!no_exclude || x == 0 || s == 0)
-          VF_CHECK(close(stir_weighting) || close(once) || close(2 * once), "stir::KL = ", stir_kl, " but harness KL: once per LOR ", once, " (in-ring part ", s,
-                   ", cross-ring part ", x, "), threshold ", thr);
-        else
-          VF_CHECK(close(once) || close(2 * once), "stir::KL = ", stir_kl, " is neither the once-per-LOR KL ", once, " nor twice it (in-ring part ", s,
-                   " counted twice, cross-ring part ", x, " once), threshold ", thr);
+          stats().cls("stir::KL compared on data with in-ring and cross-ring LORs");
+        VF_CHECK(close(once) || close(2 * once), "stir::KL = ", stir_kl, " is neither the once-per-LOR KL ", once, " nor twice it (in-ring part ", s,
+                 ", cross-ring part ", x, "), threshold ", thr);
       }
   }
   return Result::pass();
